@@ -169,6 +169,36 @@ def run(R: vlib.Run):
                             w = sel - sel.sum(1, keepdims=True) * wts + bp
                             if nbits == 32 or (w.min() >= 0 and w.max() <= 255):
                                 check("remove_zerodm", w, nbits, tol=1.0 if nbits == 8 else 1e-3)
+        # ---- sub-banding on an ascending band (negative delays are referred to the earliest channel) -----------
+        for nbits in (8, 32):
+            nch = NCH[nbits]
+            x = nprng.integers(0, 1 << min(nbits, 8), (N, nch))
+            paths = filutil.write_fil_set(os.path.join(d, f"asc{nbits}"), x, nbits, [], fch1=320.0, foff=20.0, tsamp=0.001)
+            fil = FilReader(paths)
+            out = os.path.join(d, "out_asc.fil")
+            for dm in (0.12, -0.12):
+                dl = fil.header.get_dmdelays(dm).astype(int)
+                delays = dl - min(0, int(dl.min()))
+                md = int(delays.max())
+                for start, nsamps in ((0, N), (1, N - 1)):
+                    if md >= nsamps:
+                        continue
+                    sel = x[start:start + nsamps]
+                    for gulp in (1, 2, nsamps, nsamps + 3):
+                        for nsub in (1, 2):
+                            R.case(("subband-asc", nbits, start, nsamps, gulp, md, nsub, dm), nontrivial=md > 0, regime="subband_ascending")
+                            try:
+                                fil.subband(dm, nsub, outfile_name=out, gulp=gulp, start=start, nsamps=nsamps, quiet=True)
+                            except Exception as e:  # noqa: BLE001
+                                R.fail("subband-ascending-exception", "subband raised on an ascending band", {"nbits": nbits, "dm": dm, "gulp": gulp, "exc": str(e)[:100]}); continue
+                            no = nsamps - md
+                            w = np.zeros((no, nsub)); per = nch // nsub
+                            for c in range(nch):
+                                w[:, c // per] += sel[delays[c]:delays[c] + no, c]
+                            h, got, rawlen = reread(out)
+                            if h == "exc" or got.shape != w.shape or not np.array_equal(got.astype(np.float64), w):
+                                R.fail("subband-ascending-values", "sub-band sums wrong when the raw delays are negative",
+                                       {"nbits": nbits, "dm": dm, "gulp": gulp, "start": start, "nsamps": nsamps, "nsub": nsub, "delays": dl.tolist()})
         # ---- correspondence --------------------------------------------------------------------
         rng.shuffle(corr)
         corr = corr[: (400 if R.tier == "quick" else 2000)]
